@@ -61,29 +61,11 @@ structure Tables where
   p : Vector UInt32 18
   s : Vector (Vector UInt32 256) 4
 
-/-- entry `n` of a table given as a list.  (Proof-free recursion: the kernel evaluates this fast,
-which the published test vectors below rely on; `sbox_eq` shows the default is never taken.) -/
-def look : List UInt32 → Nat → UInt32
-  | [], _ => 0
-  | a :: _, 0 => a
-  | _ :: l, n + 1 => look l n
-
-theorem look_eq_getElem (l : List UInt32) (n : Nat) (h : n < l.length) : look l n = l[n] := by
-  induction l generalizing n with
-  | nil => simp at h
-  | cons a l ih =>
-    cases n with
-    | zero => rfl
-    | succ n => simpa [look] using ih n (by simpa using h)
-
 /-- S-box `i` at byte `b` -/
-def sbox (t : Tables) (i : Fin 4) (b : UInt8) : UInt32 := look (t.s[i]).toList b.toNat
+def sbox (t : Tables) (i : Fin 4) (b : UInt8) : UInt32 := (t.s[i])[b.toNat]'(UInt8.toNat_lt b)
 
 theorem sbox_eq (t : Tables) (i : Fin 4) (b : UInt8) :
-    sbox t i b = (t.s[i])[b.toNat]'(UInt8.toNat_lt b) := by
-  simp only [sbox]
-  rw [look_eq_getElem _ _ (by simpa using UInt8.toNat_lt b)]
-  simp
+    sbox t i b = (t.s[i])[b.toNat]'(UInt8.toNat_lt b) := rfl
 
 /-- `F(x) = ((S1[a] + S2[b] mod 2^32) XOR S3[c]) + S4[d] mod 2^32`, a…d the bytes of `x` from the top -/
 def F (t : Tables) (x : UInt32) : UInt32 :=
